@@ -75,17 +75,7 @@ def parse(out):
 
 
 def died_class(case, out, ops):
-    """a crash inside a valid history: only the listed sniffing class explains one"""
-    a = case.split(" ")
-    h = a[2].split("/")
-    # the op that died is the one after the last reported op
-    executed = [x for x in h]
-    comps = [(o, op) for o, op in zip([x for x in ops if x[0] in "cCk"], [x for x in h if x[0] in "cCk"])]
-    for (kind, live, by, size, wrapped), op in comps:
-        f = op.split(":")
-        ty = int(f[2 if op[0] == "k" else 1], 16)
-        if wrapped not in (-1, -2) and size in classes.bypass_sizes(ty):
-            return "sniff_bypass_size"
+    """a crash inside a valid history: no listed class explains one"""
     return None
 
 
